@@ -18,15 +18,15 @@ TECHNIQUE = ("Coq proofs about the capacity-instrumented Gallina model of extrac
              "The model is tied to the real code by differential execution of a malformed stream under ASan/UBSan (risky "
              "cases in a forked child with a CPU/RSS watchdog); the model must predict the class of every case (result "
              "dump, exception class, overrun site, UB site).")
-LEVEL_TEXT = ("see coq/Props/Properties_C03.v: c03_decode_safe_partial (every wf schema, every byte string < 2^32 whose MsgType "
-              "is not the name of a pseudo row of the message table, Length/data pairs included: Ok or a library exception "
-              "-- no overrun, no uninitialised read, no Diverge, no Fuel), c03_pseudo_msgtype_refuted, c03_decode_safe, "
+LEVEL_TEXT = ("see coq/Props/Properties_C03.v: c03_decode_safe (every wf schema, every byte string < 2^32, any MsgType text, "
+              "Length/data pairs included: Ok or a library exception -- no overrun, no uninitialised read, no Diverge, no "
+              "Fuel), c03_pseudo_msgtype_orig_refuted + c03_decode_orig_safe_partial (old table lookup), "
               "c03_decode_total, c03_extract_element_safe, c03_extract_fixed_width_safe, c03_encode_safe_partial, "
               "c03_fast_atoi_safe, c03_fast_atoi_agrees_with_orig; refutations c03_encode_overflow_refuted, "
               "c03_datetime_ticks_refuted; on the pre-repair definitions c03_val_overflow_orig_refuted, "
               "c03_header_overflow_orig_refuted, c03_group_hang_orig_refuted, c03_fixed_width_orig_refuted, "
               "c03_datetime_ub_orig_refuted, c03_chksum_align_orig_refuted, c03_fast_atoi_ub_orig_refuted")
-LEVEL_NOTE = ("Partial: output[] of encode(f8String&), the pseudo rows header/trailer of the message table and the 64-bit tick product of the "
+LEVEL_NOTE = ("Partial: output[] of encode(f8String&) and the 64-bit tick product of the "
               "date/time constructors still violate the property (known findings). Memory safety of the REAL code is not "
               "proved: it is observed under ASan/UBSan on the generated stream and tied to the model's capacity checks. "
               "Float parsers belong to C08; date/time texts in decoded messages are canonical or predicted UB (garbage "
@@ -42,7 +42,7 @@ TRUSTED_BASE = ["Coq 8.16.1 kernel (coqc), vm_compute for the witnesses", "Extra
                 "harness/h_c03.cpp (fork isolation, crash summary from the sanitizer report, CPU/RSS hang detection) + "
                 "harness/h_codec.cpp + meta_dump.hpp; ocaml/prelude.ml + ocaml/c03_driver.ml; vlib/codecgen.py + this suite"]
 ASSUMPTIONS = ["ASan reports the first write past a stack array (redzones >= 32 bytes): an overrun never goes unnoticed",
-               "the model follows /repo 1965750 (extract_element and extract_element_fixed_width bounded, decode_group leaves "
+               "the model follows /repo 408434c (factory refuses the pseudo rows header/trailer, extract_element and extract_element_fixed_width bounded, decode_group leaves "
                "its loop on an empty element, fast_atoi with sign, accumulating in the unsigned type, memcpy word loads in calc_chksum, "
                "date/time parsers without shifts and with a clamped month)",
                "texts of float/date/time typed fields in generated inputs are the unchanged canonical texts of a valid "
@@ -99,7 +99,7 @@ ENV = {"ASAN_OPTIONS": "detect_leaks=0:abort_on_error=0:halt_on_error=1:allocato
 def risky(case, rest):
     """Run the case in a forked child?  Exactly those expected to end abnormally (a miss only costs
     a restart of the harness: the culprit is then re-run isolated)."""
-    if case.origin != "gen" or case.cls.startswith(("ub-date", "pseudo-msgtype")):
+    if case.origin != "gen" or case.cls.startswith("ub-date"):
         return True
     w = rest.split(" ")
     try:
@@ -173,10 +173,7 @@ def run_impl(built, cases, tier):
         exp = False
         w = rest.split(" ")
         if w[0] in ("DEC", "DECW", "REENC") and len(w) == 3:
-            try:             # since /repo a0d41df only the pseudo-MsgType inputs may run away
-                exp = py_mtype(bytes.fromhex(w[2])) in PSEUDO
-            except ValueError:
-                exp = False
+            exp = False          # since /repo a0d41df / 408434c no input is expected to run away
         if w[0] == "DECW":
             by.setdefault(s + "+plain", []).append((k, "DEC " + rest[5:], True, exp))
             continue
@@ -256,14 +253,6 @@ def py_mtype(data):
 
 def postprocess(case, r):
     """Sanitizer summaries of h_c03 -> the model's vocabulary (function level)."""
-    w = case.line.split(" ")
-    if ("DEC" in w[:2] or "DECW" in w[:2] or "REENC" in w[:2] or "SEQ" in w[:2]) and (r.startswith("CRASH") or r == "HANG"):
-        try:
-            if py_mtype(bytes.fromhex(w[-1])) in PSEUDO:
-                # type confusion: the form of the abnormal end (heap over-read, runaway loop) varies
-                return "CRASH pseudo-msgtype"
-        except ValueError:
-            pass
     if r.startswith("CRASH asan stack-buffer-overflow WRITE"):
         m = re.search(r"frame=(\S+)", r)
         if m:
